@@ -232,28 +232,33 @@ def sc_triple(ident, n_lock, hold=2.5):
                           barrier=False, triple=True))
 
 
-def sc_linger(ident, sig="KILL", linger=4.0):
-    """C11: chain of two jobs; the process of the first one goes on working for `linger` seconds after its body
-    returned (marker written, pid file still there, a non-daemon thread logs "late" at the very end).  The scheduler
-    is killed as soon as the body has ended; the experiment is run again at once: the dependent may only begin
-    once the process of its dependency is gone, as in a run that was not killed."""
+def sc_linger(ident, sig="KILL", linger=20.0):
+    """C11: chain of two jobs; the process of the first one goes on working after its body returned (marker written,
+    pid file still there, a non-daemon thread logs "late" at the very end, when the harness lets it).  The scheduler
+    is killed as soon as the body has ended; the experiment is run again at once; the process is let go 1.5 s after
+    the second run has submitted everything: the dependent may only begin once the process of its dependency is
+    gone, as in a run that was not killed."""
     sc = sc_restart(ident, "chain2", {"phase": "between:1"}, "free", sig)
     sc["files"]["linger.1"] = str(linger)
+    n = len(sc["script"])
+    sc["script"].append(dict(when={"phase": ["S0", 1, "submitted"]}, do={"write": ["noop", ""]}))
+    sc["script"].append(dict(when={"after": [n, 1.5]}, do={"touch": "unlinger.1"}))
     sc["meta"]["linger"] = linger
     return sc
 
 
-def sc_silent_eoj(ident, sig="KILL", silence=4.0):
+def sc_silent_eoj(ident, sig="KILL", extra=2.5):
     """C11: the end-of-job report of the job process hangs (a notification URL that accepts the connection and
-    never answers) for `silence` seconds.  The scheduler is killed as soon as the body has ended and the experiment is
-    run again while the job process is still in its clean-up: the body must not run again."""
+    never answers).  The scheduler is killed as soon as the body has ended and the experiment is run again while the
+    job process is still in its clean-up (the silent server is closed `extra` seconds after the second run has
+    submitted, or when that run is over): the body must not run again."""
     runs = [dict(sid="S0", slot=0, run=0, xpname="x"), dict(sid="S0", slot=0, run=1, xpname="x")]
     script = [dict(when={"t": 0}, do={"silent_server": "silent_url"}),
               dict(when={"after": [0, 0.0]}, do={"start": ["S0", 0]}),
               dict(when={"log": r"^end 1 \d+ ok"}, do={"kill": ["S0", 0, sig]}),
               dict(when={"dead": ["S0", 0]}, do={"start": ["S0", 1]}),
-              dict(when={"any": [{"dead": ["S0", 1]}, {"after": [3, silence + 4.0]}]}, do={"close_server": "silent_url"}),
-              dict(when={"after": [2, silence]}, do={"close_server": "silent_url"}, optional=True)]
+              dict(when={"phase": ["S0", 1, "submitted"]}, do={"write": ["noop", ""]}, optional=True),
+              dict(when={"any": [{"dead": ["S0", 1]}, {"after": [4, extra]}]}, do={"close_server": "silent_url"})]
     return dict(id=ident, kind="one", tags=[1], timeout=45, files={"latch.all": ""}, runs=runs, script=script,
                 meta=dict(family="restart", kind="one", kill={"phase": "end:1"}, latch="free", sig=sig, second_kill=None,
                           silent_eoj=True))
